@@ -815,6 +815,11 @@ class Gen:
         text = r_bounds(text, log)
         if kind == "struct":
             text = r_pub_fields(text, log)
+        if kind in ("struct", "enum") and not re.search(r"\bpub(\s*\([^)]*\))?\s+%s\b" % kind, text):
+            text = re.sub(r"\b%s\s+%s\b" % (kind, re.escape(name)), f"pub {kind} {name}", text, count=1)
+            bump(log, "R9 item made pub")
+        elif kind in ("struct", "enum"):
+            text = re.sub(r"\bpub\s*\([^)]*\)\s+(%s)\b" % kind, r"pub \1", text, count=1)
         text = self.local_subs(text, d, log)
         if kind == "const":
             # R15: `const N: T = E;` -> `exec const N: T <contract> { E }` (Verus consts are dual-mode unless marked exec)
